@@ -14,7 +14,7 @@ import (
 // C4 unlisted fields are immutable after construction, C5 lock order / waiting under a lock.
 
 func init() {
-	registerEngine("C", []string{"C1", "C2", "C3", "C4", "C5", "C6"}, runEngineC)
+	registerEngine("C", []string{"C1", "C2", "C3", "C4", "C5", "C6", "C7"}, runEngineC)
 }
 
 // guardRow: fields of one struct type guarded by one lock. deep = the guard also covers what is reached through the
@@ -68,6 +68,7 @@ var guardTable = []guardRow{
 	{"fixtures/fx.p1Stream", "fixtures/fx.p1Stream.mu", []string{"packets", "octets"}, false, false},
 	{"fixtures/fx.GoodQ", "fixtures/fx.GoodQ.mu", []string{"q"}, true, false},
 	{"fixtures/fx.BadBShallow", "fixtures/fx.BadBShallow.mu", []string{"keep"}, false, false},
+	{"fixtures/fx.c7obj", "fixtures/fx.c7obj.mu", []string{"n"}, false, false},
 	{"fixtures/fx.rmw", "fixtures/fx.rmw.mu", []string{"total"}, false, false},
 	{"fixtures/fx.rmw", "fixtures/fx.rmw.mu", []string{"stats"}, true, false},
 }
@@ -721,6 +722,31 @@ func runEngineC(p *Prog, o *obls) {
 	runC3(p, o, la)
 	runC4(p, o, la, wanted)
 	runC5(p, o, la)
+	runC7(p, o, la)
+}
+
+// ---- C7: every lock a function acquires is released on every path to a return ------------------------------------------
+
+// runC7: for each function that acquires a mutex itself, no return can be reached with that mutex still held unless
+// its unlock is deferred. (A path that leaves the function holding the lock blocks every later user of the object.)
+func runC7(p *Prog, o *obls, la *lockAnalysis) {
+	for _, fn := range p.Funcs {
+		li := la.info[fn]
+		if li == nil || li.nAcq == 0 {
+			continue
+		}
+		key := funcKey(fn) + ":balance"
+		if len(li.leaks) == 0 {
+			o.ok("C7", key, p.Pos(fn.Pos()), fmt.Sprintf("%d acquisition(s), each released (or its release deferred) on every path to a return", li.nAcq))
+			continue
+		}
+		var bad []string
+		for _, l := range li.leaks {
+			bad = append(bad, fmt.Sprintf("the return at %s can be reached with %s still held (acquired at %s, no deferred unlock): every later user of the object blocks", p.instrPos(l.ret), l.lock, p.instrPos(l.at)))
+		}
+		sort.Strings(bad)
+		o.bad("C7", key, p.Pos(fn.Pos()), strings.Join(dedupe(bad), "; "))
+	}
 }
 
 // outerDeepGuard: the accessed object is reached through a field that is deep-guarded (i.buffer.state): returns that
